@@ -83,7 +83,7 @@ func c10Gen(tape *simrt.Tape, tier string) *c10Case {
 	sc.AbortDelayMs = []int{0, 0, 1, 100, 2999, 3000, 4999, 5001, 9000}[tape.Choose(9, "abortdelay")]
 	// about one run in four is fault free
 	if tape.Bool(3, 4, "faulty") {
-		switch tape.Choose(11, "faultkind") {
+		switch tape.Choose(12, "faultkind") {
 		case 0, 1:
 			sc.Fault = cfCut
 			// anywhere in roughly the first answers; an answer is ~30 bytes
@@ -120,6 +120,9 @@ func c10Gen(tape *simrt.Tape, tier string) *c10Case {
 		case 10:
 			sc.Fault = cfEmptyName
 			sc.FaultAfter = 1 + tape.Choose(n, "after")
+		case 11:
+			sc.Fault = cfCloseStdout
+			sc.FaultAfter = 1 + tape.Choose(n, "after")
 		}
 		if sc.Fault == cfNone && tape.Bool(1, 3, "nonzero-at-end") {
 			sc.ExitNonZero = true
@@ -128,7 +131,7 @@ func c10Gen(tape *simrt.Tape, tier string) *c10Case {
 	if tape.Bool(1, 5, "inprocess") {
 		// a peer behind the in-process seam: not killable, bounded parallelism
 		sc.InProcess = 1 + tape.Choose(3, "parallelism")
-		if sc.Fault == cfCut || sc.Fault == cfPremature {
+		if sc.Fault == cfCut || sc.Fault == cfPremature || sc.Fault == cfCloseStdout {
 			sc.Fault = cfNone
 		}
 		sc.StopReadingAt, sc.IgnoreEOF = -1, false
